@@ -48,33 +48,40 @@ clause -> family -> domain (E exhaustive over the stated scope, R seeded sample)
                              with asymmetric transform (v3 only), X picture of the other profile, A first fragment of a
                              2x1-slice picture, B1/B2 continuation fragment with 1/2 slices at the next raster position, W
                              one-slice fragment at a wrong position, N padding, U auxiliary data, E end of sequence} of
-                             the form S w, |w| <= 3 plus all |w| = 4 ending in E [thorough: |w| <= 4 plus |w| = 5 ending
-                             in E], and every string of length <= 2 not starting with S; naturally numbered from
-                             2**32-2 (so three pictures wrap), correct offsets; x 12 configurations {LD, HQ} x
-                             major_version {1,2,3} x {frames, fields} at level 0
+                             the form S w, naturally numbered from 2**32-2 (so three pictures wrap), correct offsets, for
+                             the 12 configurations {LD, HQ} x major_version {1,2,3} x {frames, fields} at level 0.
+                             quick: |w| <= 3 for LD v1 frames, HQ v2 fields, LD v3 fields, HQ v3 frames (+ all |w| = 4
+                             ending in E) and LD v2 frames, |w| <= 2 (+ |w| = 3 ending in E) for the others; thorough:
+                             |w| <= 4 for all (+ |w| = 5 ending in E for the four main ones).  Plus every string of
+                             length <= 2 that does not start with S
   R-next, R-prev         E2  base histories (all strings of <= 2 [3] body items over {P, Q, fragmented picture, S, N, U}
-                             that the monitor accepts, in LD v1 / HQ v2 / LD v3 / HQ v3, plus two-sequence streams) x every
-                             unit x every single offset fault (next: 0, true+-1, 13, 12, 1, true+256; previous: 0, true+-1,
-                             13, true+256) and every pair (next fault on unit i, previous fault / correct on unit i+1)
+                             that the monitor accepts, in LD v1 / HQ v3, one item less in HQ v2 / LD v3, plus two-sequence
+                             streams) x every unit x every single offset fault (next: 0, true+-1, 13, 12, 1, true+256;
+                             previous: 0, true+-1, 13, true+256) and every pair (next fault on unit i, previous fault /
+                             correct on unit i+1)
   R-number               E3  1..3 [4] pictures, each plain or fragmented, first number in {0, 1, 2, 2**31-1, 2**31,
                              2**32-2, 2**32-1, 65535}, every later step in {+1, 0, +2, -1, +2**31}, frames and fields,
                              optional repeated header between pictures, a following second sequence with its own numbering
   R-fragment             E4  slice grids 2x2 and 3x2 [+ 1x1, 2x1, 3x1]: every composition of the slices into fragments
                              (accepted), each with ONE fragment replaced by every (count, x, y) in 1..n+1 x 0..sx+1 x
-                             0..sy+1 [quick: 3x2 only for compositions into <= 3 fragments], a changed picture number
-                             on one fragment, a dropped / duplicated fragment, a missing first fragment, and every unit
-                             kind inserted at every gap; LD and HQ
+                             0..sy+1 [quick: 3x2 only HQ and only compositions into <= 3 fragments], a changed picture
+                             number on one fragment, a dropped / duplicated fragment, a missing first fragment, the picture
+                             abandoned after any number of fragments and followed by a complete one, every unit kind
+                             inserted at every gap, fragments of the other profile; LD and HQ
   R-header               E5  base header x variants differing in one field (frame rate, scan format flag that re-states
-                             the default = same meaning / different bytes, picture coding mode, major_version, clean area)
-                             at every position of S P P E, as first and as repeated header, and in a second sequence
-  R-level                E6  level 1 (176x120): every string S w, |w| <= 3 [4] over {S, P, A, B2, N, E} for LD/HQ v3 and
-                             |w| <= 2 [3] for LD v1 / HQ v2; levels 64, 65, 66: the picture-free histories (S E, S S E, S N E,
-                             S U E, S A .., E) which the ordering pattern rejects [thorough: + levels 2, 3 with one picture]
+                             the default = same meaning / different bytes, picture coding mode, major_version, clean area,
+                             frame size) at every position of S P P E, as first and as repeated header, and in a second
+                             sequence
+  R-level                E6  level 1 (176x120): every string S w over {S, P, A, B2, N, E} with at most 2 [3] decoded
+                             pictures, |w| <= 3 [4] for HQ v3, 2 [4] for LD v3 and HQ v2 [3], 1 [3] for LD v1, plus ten
+                             arrangements of pictures and fragments in one sequence; levels 64, 65, 66: the picture-free
+                             histories (S E, S S E, S N E, S U E, S A E, E, ...) which the ordering pattern rejects
+                             [thorough: + level 3 (1280x720) with one or two pictures]
   all rules, long        R   seeded random streams of 1..3 conformant sequences (<= 6 pictures each, random
                              fragmentation, repeated headers, padding, auxiliary data, zero offsets, special first picture
                              numbers, level 0 and occasionally level 1) with 0, 1 or 2 random faults (delete / duplicate /
                              swap / insert unit, offset, picture number, fragment field, header variant, profile, whole
-                             sequence configuration) [6000 / 60000 streams]
+                             sequence configuration) [3500 / 60000 streams]
 Bounds: at most 6 worker processes; per-case CPU limit CASE_SECONDS (over the limit = 'abandoned', never a violation).
 NOT covered: accepting direction for levels 2-7 beyond one picture and for levels 64-66 (their pictures are full HD/UHD and
 take minutes in the pure-Python decoder); non-zero slice payloads; histories longer than the stated lengths.
@@ -165,7 +172,7 @@ class Templates(object):
 
     def __init__(self):
         self.hdr = {}
-        self.body = {}
+        self._bodies = {}
 
     # ---- description dictionaries
     @staticmethod
@@ -188,8 +195,6 @@ class Templates(object):
                 sp["scan_format"] = bs.ScanFormat(custom_scan_format_flag=True, source_sampling=0)
         elif geo == "l1":
             bvf = 2 if var == "bvf" else 1
-        elif geo == "l2":
-            bvf = 7
         elif geo == "l3":
             bvf = 9
         elif geo == "l64":
@@ -261,7 +266,7 @@ class Templates(object):
             geo_h, pcm = "tiny", 1
         else:
             geo_h = geo
-        level = {"tiny": 0, "l1": 1, "l2": 2, "l3": 3}[geo_h]
+        level = {"tiny": 0, "l1": 1, "l3": 3}[geo_h]
         hk = (geo_h, p, 3 if syn == 3 else 2, level, pcm, "")
         n = g[0] * g[1]
         units = [self._hdr_unit(hk),
@@ -288,9 +293,9 @@ class Templates(object):
 
     def body(self, geo, p, syn, g, asym):
         key = (geo, p, syn, tuple(g), bool(asym))
-        if key not in self.body:
-            self.body[key] = self._build_body(*key)
-        return self.body[key]
+        if key not in self._bodies:
+            self._bodies[key] = self._build_body(*key)
+        return self._bodies[key]
 
 
 def _parse_info(code, nxt=0, prv=0):
@@ -413,7 +418,7 @@ def _monitor_sequence(units, lens, i, j, closed, seq_no, bad, silent):
         u = units[t]
         k = u["k"]
         if k == "sh":
-            if t != i and tuple(u["h"]) != tuple(first["h"]) and _HEADER_BYTES(u["h"]) != _HEADER_BYTES(first["h"]):
+            if t != i and _HEADER_BYTES(u["h"]) != _HEADER_BYTES(first["h"]):
                 bad.append("R-header: unit %d sequence header differs from the first of the sequence" % t)
         if k in ("pic", "frag"):
             if u["p"] != profile:
@@ -623,23 +628,31 @@ def natural(symbols, hk, g=(2, 1), n0=M32 - 2, variant="fr"):
     return out
 
 
+MAIN_CONFIGS = {("ld", 1, 0), ("hq", 2, 1), ("ld", 3, 1), ("hq", 3, 0)}  # (profile, major_version, picture coding mode)
+
+
 def fam_orderings(tier):
+    """quick: the four MAIN_CONFIGS and LD v2 get the full depth, the other configurations one unit less."""
     L = 3 if tier == "quick" else 4
     cases = []
     for prof in ("ld", "hq"):
         for version in (1, 2, 3):
             for pcm in (0, 1):
                 hk = ("tiny", prof, version, 0, pcm, "")
+                main = (prof, version, pcm) in MAIN_CONFIGS
                 sigma = ["S", "D", "P", "X", "A", "B1", "B2", "W", "N", "U", "E"] + (["Q"] if version == 3 else [])
                 if not header_info(hk)["valid"]:
                     Lc = 1  # every history with this header is rejected at the header
+                elif tier == "quick" and not (main or (prof, version, pcm) == ("ld", 2, 0)):
+                    Lc = L - 1
                 else:
                     Lc = L
                 for ln in range(0, Lc + 1):
                     for w in itertools.product(sigma, repeat=ln):
                         cases.append(natural(("S",) + w, hk))
-                for w in itertools.product(sigma, repeat=Lc):
-                    cases.append(natural(("S",) + w + ("E",), hk))
+                if main or Lc < L:
+                    for w in itertools.product(sigma, repeat=Lc):
+                        cases.append(natural(("S",) + w + ("E",), hk))
                 for ln in (1, 2):
                     for w in itertools.product(sigma, repeat=ln):
                         if w[0] != "S":
@@ -663,7 +676,8 @@ def fam_offsets(tier):
         hk = ("tiny", prof, version, 0, 0, "")
         items = [("P",), ("S",), ("N",), ("U",)] + ([("Q",), ("A", "B2"), ("A", "B1", "B1")] if version == 3 else [])
         bases = []
-        for ln in range(0, L + 1):
+        Lc = L if (prof, version) in (("ld", 1), ("hq", 3)) else L - 1
+        for ln in range(0, Lc + 1):
             for combo in itertools.product(items, repeat=ln):
                 w = ("S",) + tuple(s for it in combo for s in it) + ("E",)
                 units = natural(w, hk, n0=6)
@@ -770,6 +784,11 @@ def fam_fragments(tier):
                     cases.append(base[:fi] + base[fi + 1:])  # dropped
                     cases.append(base[:fi] + [dict(base[fi])] + base[fi:])  # duplicated
                 cases.append(base[:1] + base[2:])  # no first fragment
+                # the picture abandoned after any number of fragments, followed by a complete well-formed one
+                redo = [dict(u, n=10) for u in base[1:-1]]
+                for cut in range(2, len(base) - 1):
+                    cases.append(base[:cut] + redo + [eos()])
+                cases.append(base[:-1] + redo + [eos()])  # (complete, then the next one: accepted)
                 # every unit kind at every gap after the first fragment
                 inserts = [pic(prof, 10, "tiny", 3, asym=True), pic(OTHER[prof], 10, "tiny", 3, asym=True), frag(prof, 10, 0, 0, 0, "tiny", 3, g=g),
                            frag(prof, 9, 0, 0, 0, "tiny", 3, g=g), sh(hk), pad(), aux(), eos()]
@@ -784,6 +803,12 @@ def fam_fragments(tier):
             cases.append(whole + [pic(prof, 10, "tiny", 3), eos()])
             cases.append(whole + [frag(prof, 10, 0, 0, 0, "tiny", 3, g=g), frag(prof, 10, n, 0, 0, "tiny", 3, g=g), eos()])
             cases.append([sh(hk), pic(prof, 8, "tiny", 3)] + whole[1:] + [eos()])
+            # fragments of the other profile: a whole picture, only the first fragment, only the slices
+            o = OTHER[prof]
+            cases.append([sh(hk), frag(o, 9, 0, 0, 0, "tiny", 3, g=g), frag(o, 9, n, 0, 0, "tiny", 3, g=g), eos()])
+            cases.append([sh(hk), frag(o, 9, 0, 0, 0, "tiny", 3, g=g), frag(prof, 9, n, 0, 0, "tiny", 3, g=g), eos()])
+            cases.append([sh(hk), frag(prof, 9, 0, 0, 0, "tiny", 3, g=g), frag(o, 9, n, 0, 0, "tiny", 3, g=g), eos()])
+            cases.append(whole + [frag(o, 10, 0, 0, 0, "tiny", 3, g=g), frag(o, 10, n, 0, 0, "tiny", 3, g=g), eos()])
     return cases
 
 
@@ -820,18 +845,22 @@ def fam_headers(tier):
 def fam_levels(tier):
     cases = []
     # level 1, the smallest format (176x120)
-    for prof, version, L in (("hq", 3, 3), ("ld", 3, 3), ("hq", 2, 2), ("ld", 1, 2)):
+    for prof, version, L in (("hq", 3, 3), ("ld", 3, 2), ("hq", 2, 2), ("ld", 1, 1)):
         if tier != "quick":
-            L += 1
+            L += 1 if prof == "hq" else 2
         hk = ("l1", prof, version, 1, 0, "")
         sigma = ["S", "P", "A", "B2", "N", "E"]
         for ln in range(0, L + 1):
             for w in itertools.product(sigma, repeat=ln):
-                if sum(1 for s in w if s in ("P", "B2")) > 3:
+                if sum(1 for s in w if s in ("P", "B2")) > (2 if tier == "quick" else 3):
                     continue
                 cases.append(natural(("S",) + w, hk, variant="bvf"))
                 if w and w[-1] != "E":
                     cases.append(natural(("S",) + w + ("E",), hk, variant="bvf"))
+        if version == 3:  # pictures and fragments in one sequence, in several arrangements
+            for w in (("P", "A", "B2"), ("A", "B2", "P"), ("P", "S", "A", "B2"), ("A", "B2", "N", "P"), ("P", "P", "A", "B2"), ("A", "B2", "A", "B2", "P"),
+                      ("A", "B2", "P", "A", "B2"), ("P", "N", "S", "A", "B1", "B1"), ("A", "B2", "A", "B2"), ("A", "B1", "B1", "S", "A", "B2")):
+                cases.append(natural(("S",) + w + ("E",), hk, variant="bvf"))
         cases.append(natural(("S", "D", "E"), hk, variant="bvf"))
         cases.append(natural(("S", "P", "D", "E"), hk, variant="bvf"))
     # levels 64-66: picture-free histories only (a conformant picture of these levels is full HD / UHD)
@@ -841,7 +870,7 @@ def fam_levels(tier):
             cases.append(natural(w, hk))
         cases.append([sh(hk), frag(prof, 0, 0, 0, 0, "tiny", syn_of(version), g=(2, 1)), eos()])
     if tier != "quick":
-        for geo, level in (("l2", 2), ("l3", 3)):
+        for geo, level in (("l3", 3),):
             for prof in ("hq", "ld"):
                 hk = (geo, prof, 3, level, 0, "")
                 for w in (("S", "A", "B2", "E"), ("S", "A", "B2", "P", "E"), ("S", "A", "B2", "S", "N", "A", "B2", "E")):
@@ -852,7 +881,7 @@ def fam_levels(tier):
 # ---- random conformant sequences with faults
 def _rand_sequence(rng, allow_l1):
     geo, level = "tiny", 0
-    if allow_l1 and rng.random() < 0.03:
+    if allow_l1 and rng.random() < 0.02:
         geo, level = "l1", 1
     prof = rng.choice(("ld", "hq"))
     version = rng.choice((1, 3)) if prof == "ld" else rng.choice((2, 3))
@@ -1000,15 +1029,13 @@ def _fault(rng, units):
         if units[a]["k"] == "sh" and units[a]["h"][0] == "tiny":
             old = tuple(units[a]["h"])
             new = list(old)
-            what = rng.choice(("profile", "version", "pcm", "level"))
+            what = rng.choice(("profile", "version", "pcm"))
             if what == "profile":
                 new[1] = OTHER[new[1]]
             elif what == "version":
                 new[2] = rng.choice([v for v in (1, 2, 3) if v != new[2]])
-            elif what == "pcm":
-                new[4] = 1 - new[4]
             else:
-                new[3] = 0
+                new[4] = 1 - new[4]
             info = header_info(tuple(new))
             for t in range(a, b + 1):
                 x = units[t]
@@ -1024,7 +1051,7 @@ def _fault(rng, units):
 
 def fam_random(tier, seed):
     rng = random.Random("C01-histories-%s" % seed)
-    N = 6000 if tier == "quick" else 60000
+    N = 3500 if tier == "quick" else 60000
     cases = []
     for _ in range(N):
         units = []
@@ -1081,32 +1108,40 @@ def check(rep, tier, seed):
                             detail = repr((geo, p, syn, g, i))
     rep.add_eval_fact("continuation fragments built by the assembler are byte-identical (apart from the parse offsets) with those of the project's serialiser", same, detail)
 
-    # ---- generate, run
+    # ---- generate, run.  The most common templates are built before the workers fork (the rest are built on demand in
+    # the workers); the families are generated while the workers already run (slow level-1 family first).
     signal.signal(signal.SIGPROF, _on_timer)
+    for geo in ("tiny", "tiny1"):
+        for p in ("ld", "hq"):
+            for syn in (1, 3):
+                for asym in ((False, True) if syn == 3 else (False,)):
+                    for g in ((1, 1), (2, 1), (2, 2), (3, 2)):
+                        _T.body(geo, p, syn, g, asym)
+    for prof in ("ld", "hq"):
+        for version in (1, 2, 3):
+            for pcm in (0, 1):
+                for var in ("", "fr", "scan", "pcm", "clean", "size"):
+                    _T.header(("tiny", prof, version, 0, pcm, var))
+            _T.header(("l1", prof, version, 1, 0, ""))
     gens = [fam_orderings, fam_offsets, fam_numbers, fam_fragments, fam_headers, fam_levels, None]
-    chunks = []
-    sizes = []
-    samples = []
-    for fi, gen in enumerate(gens):
-        cases = fam_random(tier, seed) if gen is None else gen(tier)
-        sizes.append(len(cases))
-        samples.append([_brief(c) for c in (cases[len(cases) // 3], cases[(2 * len(cases)) // 3])] if cases else [])
-        # pre-build every template in the parent so that the forked workers share them
-        for c in cases:
-            for u in c:
-                if u["k"] == "sh":
-                    _T.header(u["h"])
-                elif u["k"] in ("pic", "frag"):
-                    _T.body(u["geo"], u["p"], u["syn"], u["g"], u["asym"])
-        for s in range(0, len(cases), CHUNK):
-            chunks.append((fi, s, cases[s:s + CHUNK]))
-    # expensive chunks (level 1 pictures) first
-    chunks.sort(key=lambda c: (0 if c[0] == 5 else 1, c[0], c[1]))
+    order = [5, 6, 0, 1, 2, 3, 4]
+    sizes = [0] * len(gens)
+    samples = [[] for _ in gens]
+
+    def chunks():
+        for fi in order:
+            gen = gens[fi]
+            cases = fam_random(tier, seed) if gen is None else gen(tier)
+            sizes[fi] = len(cases)
+            samples[fi] = [_brief(c) for c in (cases[len(cases) // 3], cases[(2 * len(cases)) // 3])] if cases else []
+            for s in range(0, len(cases), CHUNK):
+                yield (fi, s, cases[s:s + CHUNK])
+
     ctx = multiprocessing.get_context("fork")
     agg = [{"n": 0, "accept": 0, "reject": 0, "silent": 0, "abandoned": 0, "classes": {}, "fail": []} for _ in gens]
     pool = ctx.Pool(WORKERS, initializer=_worker_init)
     try:
-        for res in pool.imap_unordered(_work, chunks):
+        for res in pool.imap_unordered(_work, chunks()):
             a = agg[res["fam"]]
             for k in ("n", "accept", "reject", "silent", "abandoned"):
                 a[k] += res[k]
